@@ -9,6 +9,7 @@ import (
 	"github.com/cloudwego/frugal/zverif/hooks"
 	"github.com/cloudwego/frugal/zverif/ref"
 	"github.com/cloudwego/frugal/zverif/universe"
+	"github.com/cloudwego/frugal/zverif/xval"
 )
 
 // codecCase is one (type, value) point of the shared C01/C02/C04/C16 space.
@@ -91,5 +92,295 @@ func c01Body(c *explore.C, ff *flatFamily, tier universe.Tier) {
 	harness.Cur.Sample(func() interface{} {
 		return map[string]string{"type": s.String(), "value": v.Short(), "encoded": hx(enc)}
 	})
-	_ = bytes.Equal
+}
+
+func init() {
+	harness.Register(&harness.Check{
+		ID:          "C02",
+		Level:       "model_checking",
+		Explanation: "Bounded exhaustive enumeration (E1) of types x values; every execution runs the real EncodeObject and checks the bytes with a strict schema-less wire parser, against the reference encoder (canonical form), and by parsing them with Apache Thrift TBinaryProtocol and gopkg thrift.Binary. The reference encoder itself is cross-validated the same way on every case.",
+		Assumptions: []string{"go1.23.5 toolchain", "Apache Thrift v0.13.0 and cloudwego/gopkg v0.2.0 readers are independent implementations of the Binary Protocol"},
+		Phases: func(tier universe.Tier) []*harness.Phase {
+			ff := flatten(codecFamilies(tier))
+			return []*harness.Phase{{
+				Name: "wire",
+				Rule: "same type x value space as C01 (complete 9x14 map matrix, all list/set element kinds, containers of containers); distinct by (type index, canonical bytes)",
+				Body: func(c *explore.C) { c02Body(c, ff, tier) },
+			}}
+		},
+	})
+	harness.Register(&harness.Check{
+		ID:          "C04",
+		Level:       "model_checking",
+		Explanation: "Bounded exhaustive enumeration (E1) of types x values x buffer lengths; EncodedSize by pointer and by value, EncodeObject into windows of every length 0..size (all for size<=64) with sentinel bytes before, in spare capacity and beyond capacity.",
+		Assumptions: []string{"go1.23.5 toolchain", "reference encoder length is the expected size"},
+		Phases: func(tier universe.Tier) []*harness.Phase {
+			ff := flatten(codecFamilies(tier))
+			return []*harness.Phase{{
+				Name: "size-buffer",
+				Rule: "C01 type x value space, each value passed as *T and T, x buffer lengths {0..size} (size<=64) or {0,1,size-1,powers of two} plus {size,size+1,size+7}; distinct by (type index, canonical bytes)",
+				Body: func(c *explore.C) { c04Body(c, ff, tier) },
+			}}
+		},
+	})
+	harness.Register(&harness.Check{
+		ID:          "C16",
+		Level:       "model_checking",
+		Explanation: "Bounded exhaustive enumeration (E1) of types x values; deep raw-memory snapshots (struct memory incl. padding, slice backing arrays up to capacity, strings, map contents) of the value before and after EncodedSize/EncodeObject by pointer and by value; sentinel windows around the buffer; input buffer compared after DecodeObject.",
+		Assumptions: []string{"go1.23.5 toolchain"},
+		Phases: func(tier universe.Tier) []*harness.Phase {
+			ff := flatten(append(codecFamilies(tier), nocopyFamily()))
+			return []*harness.Phase{{
+				Name: "side-effects",
+				Rule: "C01 type x value space plus nocopy string/binary types; values built with spare slice capacity holding live sentinel elements; distinct by (type index, canonical bytes)",
+				Body: func(c *explore.C) { c16Body(c, ff, tier) },
+			}}
+		},
+	})
+}
+
+func tiKey(ti int) []byte { return []byte{byte(ti), byte(ti >> 8), byte(ti >> 16)} }
+
+func c02Body(c *explore.C, ff *flatFamily, tier universe.Tier) {
+	cc := pickCodecCase(c, ff, tier)
+	s, v := cc.s, cc.v
+	hooks.Reset()
+	src := universe.New(s, v)
+	want := ref.Encode(s, v)
+	exp := ref.Decode(s, want, nil, ref.DecOpts{})
+	if !exp.OK || exp.N != len(want) {
+		panic(fmt.Sprintf("harness error: reference decoder rejects the reference encoding (%v) for %s", exp.Err, s))
+	}
+	expCanon := exp.V.Canon()
+	// cross-validate the reference encoder with both independent readers
+	for name, rd := range readers {
+		xv, n, err := rd(s, want)
+		if err != nil || n != len(want) || xv.Canon() != expCanon {
+			panic(fmt.Sprintf("harness error: %s reader disagrees with the reference encoder: err=%v n=%d/%d type=%s value=%s", name, err, n, len(want), s, v.Short()))
+		}
+	}
+	if n, err := xval.GopkgSkipLen(want); err != nil || n != len(want) {
+		panic(fmt.Sprintf("harness error: gopkg Skip disagrees with the reference encoder on the length: %d vs %d (%v)", n, len(want), err))
+	}
+	w := NewWindow(len(want)+64, 0)
+	buf := w.Buf()
+	r := Enc(buf, src.Interface())
+	if r.Panic != nil || r.Err != nil {
+		c.Fail(fmt.Sprintf("EncodeObject failed on an accepted type/value: %v", r), mkCase("C02", "encode-failed", s, v, nil, r.String()))
+		return
+	}
+	enc := buf[:r.N]
+	tree, end, err := ref.ParseStruct(enc)
+	if err != nil {
+		c.Fail("encoder output is not well-formed Thrift Binary: "+err.Error(), mkCase("C02", "malformed-output", s, v, enc, nil))
+		return
+	}
+	if end != r.N {
+		c.Fail(fmt.Sprintf("encoder output has %d bytes after the top-level STOP", r.N-end), mkCase("C02", "trailing-output", s, v, enc, nil))
+		return
+	}
+	gotCanon := tree.Bytes(true)
+	wantCanon, _ := ref.Canonical(want)
+	if !bytes.Equal(gotCanon, wantCanon) {
+		c.Fail("encoder output differs from the reference encoding (up to map-entry order)",
+			mkCase("C02", "bytes-mismatch", s, v, enc, map[string]string{"reference": hx(want)}))
+		return
+	}
+	for name, rd := range readers {
+		xv, n, err := rd(s, enc)
+		if err != nil || n != r.N {
+			c.Fail(fmt.Sprintf("%s cannot parse the encoder output: err=%v consumed=%d of %d", name, err, n, r.N), mkCase("C02", "foreign-reader-rejects", s, v, enc, nil))
+			return
+		}
+		if xv.Canon() != expCanon {
+			c.Fail(name+" parses the encoder output to a different value", mkCase("C02", "foreign-reader-value", s, v, enc, map[string]string{"got": xv.Short(), "want": exp.V.Short()}))
+			return
+		}
+	}
+	harness.Cur.Outcome(harness.Hash64(tiKey(cc.ti), gotCanon), shapeClass(cc))
+	harness.Cur.Sample(func() interface{} {
+		return map[string]string{"type": s.String(), "value": v.Short(), "encoded": hx(enc)}
+	})
+}
+
+var readers = map[string]func(*ref.Struct, []byte) (*ref.Val, int, error){"Apache Thrift TBinaryProtocol": xval.Apache, "gopkg thrift.Binary": xval.Gopkg}
+
+func bufLens(size int) []int {
+	var ls []int
+	if size <= 64 {
+		for l := 0; l <= size; l++ {
+			ls = append(ls, l)
+		}
+	} else {
+		ls = append(ls, 0, 1)
+		for p := 2; p < size; p *= 2 {
+			ls = append(ls, p)
+		}
+		ls = append(ls, size-1, size)
+	}
+	return append(ls, size+1, size+7)
+}
+
+func c04Body(c *explore.C, ff *flatFamily, tier universe.Tier) {
+	cc := pickCodecCase(c, ff, tier)
+	s, v := cc.s, cc.v
+	hooks.Reset()
+	src := universe.New(s, v)
+	want := ref.Encode(s, v)
+	wantCanon, _ := ref.Canonical(want)
+	size := len(want)
+	args := []struct {
+		name string
+		arg  interface{}
+	}{{"pointer", src.Interface()}, {"value", src.Elem().Interface()}}
+	for _, a := range args {
+		r := Size(a.arg)
+		if r.Panic != nil {
+			c.Fail(fmt.Sprintf("EncodedSize(%s) panics on an accepted type/value: %v", a.name, r.Panic), mkCase("C04", "size-panic", s, v, nil, a.name))
+			return
+		}
+		if r.N != size {
+			c.Fail(fmt.Sprintf("EncodedSize(%s)=%d, the encoding has %d bytes", a.name, r.N, size), mkCase("C04", "size-mismatch", s, v, nil, a.name))
+			return
+		}
+	}
+	for ai, a := range args {
+		for _, l := range bufLens(size) {
+			if ai == 1 && l != size && l != size-1 && l != 0 {
+				continue // by value: exact, one short, empty
+			}
+			if l < 0 {
+				continue
+			}
+			w := NewWindow(l, size+16)
+			buf := w.Buf()
+			r := Enc(buf, a.arg)
+			if r.Panic != nil {
+				c.Fail(fmt.Sprintf("EncodeObject(%s, len(buf)=%d of %d needed) panics: %v", a.name, l, size, r.Panic), mkCase("C04", "encode-panic", s, v, nil, l))
+				return
+			}
+			if l >= size {
+				if r.Err != nil || r.N != size {
+					c.Fail(fmt.Sprintf("EncodeObject(%s) with len(buf)=%d >= size %d: %v", a.name, l, size, r), mkCase("C04", "sufficient-buffer-rejected", s, v, nil, l))
+					return
+				}
+				got, err := ref.Canonical(buf[:r.N])
+				if err != nil || !bytes.Equal(got, wantCanon) {
+					c.Fail(fmt.Sprintf("EncodeObject(%s) wrote a different message into a buffer of length %d", a.name, l), mkCase("C04", "bytes-mismatch", s, v, buf[:r.N], l))
+					return
+				}
+				if off, bad := w.Dirty(r.N); bad {
+					c.Fail(fmt.Sprintf("EncodeObject(%s) wrote outside buf[:n]: offset %d (n=%d len=%d)", a.name, off, r.N, l), mkCase("C04", "write-outside", s, v, nil, l))
+					return
+				}
+			} else {
+				if r.Err == nil {
+					c.Fail(fmt.Sprintf("EncodeObject(%s) with len(buf)=%d < size %d returned success n=%d (truncated message)", a.name, l, size, r.N), mkCase("C04", "short-buffer-accepted", s, v, nil, l))
+					return
+				}
+				if off, bad := w.Dirty(l); bad {
+					c.Fail(fmt.Sprintf("EncodeObject(%s) with a short buffer wrote past the buffer: offset %d, len(buf)=%d", a.name, off, l), mkCase("C04", "write-past-buffer", s, v, nil, l))
+					return
+				}
+			}
+			harness.Cur.Count("buffer_lengths_tried", 1)
+		}
+	}
+	harness.Cur.Outcome(harness.Hash64(tiKey(cc.ti), wantCanon), shapeClass(cc))
+	harness.Cur.Sample(func() interface{} {
+		return map[string]interface{}{"type": s.String(), "value": v.Short(), "size": size, "buffer_lengths": bufLens(size)}
+	})
+}
+
+// nocopyFamily: string/binary fields with the nocopy option in every shell.
+func nocopyFamily() *family {
+	return cached("nocopy", func() *family {
+		f := &family{name: "nocopy"}
+		for _, k := range []ref.Kind{ref.KString, ref.KBinary} {
+			t := universe.Sc(k)
+			for _, sh := range universe.Shells(t) {
+				s := universe.One(t, sh, 1)
+				s.Fields[0].NoCopy = true
+				s.Fields = append(s.Fields, &ref.Field{ID: 2, Req: ref.ReqDefault, Type: universe.Sc(ref.KString)})
+				f.items = append(f.items, s)
+			}
+		}
+		return f
+	})
+}
+
+func c16Body(c *explore.C, ff *flatFamily, tier universe.Tier) {
+	cc := pickCodecCase(c, ff, tier)
+	s, v := cc.s, cc.v
+	hooks.Reset()
+	src := universe.NewSpare(s, v)
+	want := ref.Encode(s, v)
+	size := len(want)
+	before := Snapshot(src)
+	check := func(step string) bool {
+		after := Snapshot(src)
+		if d := before.Diff(after); d != "" {
+			c.Fail(step+" modified the value it was given: "+d, mkCase("C16", "value-modified", s, v, nil, step))
+			return false
+		}
+		return true
+	}
+	if r := Size(src.Interface()); r.Panic != nil {
+		c.Fail(fmt.Sprintf("EncodedSize panics: %v", r.Panic), mkCase("C16", "size-panic", s, v, nil, nil))
+		return
+	}
+	if !check("EncodedSize(pointer)") {
+		return
+	}
+	Size(src.Elem().Interface())
+	if !check("EncodedSize(value)") {
+		return
+	}
+	var first []byte
+	for i, a := range []interface{}{src.Interface(), src.Elem().Interface(), src.Interface()} {
+		step := []string{"EncodeObject(pointer)", "EncodeObject(value)", "EncodeObject(pointer) again"}[i]
+		w := NewWindow(size+40, 24) // larger than needed, with spare capacity
+		buf := w.Buf()
+		r := Enc(buf, a)
+		if r.Panic != nil || r.Err != nil {
+			c.Fail(fmt.Sprintf("%s failed: %v", step, r), mkCase("C16", "encode-failed", s, v, nil, step))
+			return
+		}
+		if off, bad := w.Dirty(r.N); bad {
+			c.Fail(fmt.Sprintf("%s wrote outside buf[:n]: offset %d, n=%d, len(buf)=%d", step, off, r.N, len(buf)), mkCase("C16", "write-outside", s, v, nil, step))
+			return
+		}
+		if !check(step) {
+			return
+		}
+		cn, err := ref.Canonical(buf[:r.N])
+		if err != nil {
+			c.Fail(step+" produced malformed output: "+err.Error(), mkCase("C16", "malformed-output", s, v, buf[:r.N], step))
+			return
+		}
+		if first == nil {
+			first = cn
+		} else if !bytes.Equal(first, cn) {
+			c.Fail(step+": encoding the same unmodified value again yields different bytes (beyond map-entry order)", mkCase("C16", "not-repeatable", s, v, buf[:r.N], step))
+			return
+		}
+	}
+	// decoding never modifies the input
+	in := append([]byte{}, want...)
+	in = append(in, 0xEE, 0xEE) // trailing bytes
+	keep := append([]byte{}, in...)
+	dst := universe.New(s, nil)
+	d := Dec(in, dst.Interface())
+	if d.Panic != nil || d.Err != nil {
+		c.Fail(fmt.Sprintf("DecodeObject failed on the reference encoding: %v", d), mkCase("C16", "decode-failed", s, v, want, nil))
+		return
+	}
+	if !bytes.Equal(in, keep) {
+		c.Fail("DecodeObject modified its input buffer", mkCase("C16", "input-modified", s, v, want, hx(in)))
+		return
+	}
+	harness.Cur.Outcome(harness.Hash64(tiKey(cc.ti), first), shapeClass(cc))
+	harness.Cur.Sample(func() interface{} {
+		return map[string]interface{}{"type": s.String(), "value": v.Short(), "snapshot_blocks": len(before.blocks)}
+	})
 }
